@@ -301,4 +301,60 @@ theorem body_fuse (p : Plan) (c : Cte) (db : DB) (h : p.fusable c = true) :
     congr 1
     exact mets_eval c p.mets _ kg.2 h8
 
+/-! ### fusion of ungrouped plans -/
+
+theorem proj_item (c : Cte) (items : List Item) (r : Row)
+    (hk : items.all (fun it => (resolveKey c it).isSome) = true) :
+    (items.map fun it => (it.alias, it.e.eval (c.items.map fun i => (c.qual i.alias, i.e.eval r)))) =
+      ((items.filterMap (resolveKey c)).map fun k => (k.alias, k.e.eval r)) := by
+  induction items with
+  | nil => rfl
+  | cons it its ih =>
+    simp only [List.all_cons, Bool.and_eq_true] at hk
+    obtain ⟨h1, h2⟩ := hk
+    simp only [List.map_cons, List.filterMap_cons]
+    cases hr : resolveKey c it with
+    | none => simp [hr] at h1
+    | some k =>
+      simp only [List.map_cons]
+      rw [ih h2]
+      congr 1
+      unfold resolveKey at hr
+      split at hr
+      · rename_i kk heq
+        cases hl : cteLookup c kk with
+        | none => simp [hl] at hr
+        | some e =>
+          simp only [hl, Option.map_some, Option.some.injEq] at hr
+          subst hr
+          rw [heq]
+          simp only [Expr.eval, get_proj, hl, Option.map_some, Option.getD_some]
+      · simp at hr
+
+theorem fusableRaw_parts {p : Plan} {c : Cte} (h : p.fusableRaw c = true) :
+    p.ctes = [c] ∧ p.base = c.name ∧ p.joins = [] ∧ p.where_ = [] ∧ p.ungrouped = true ∧
+    (p.dims ++ p.rawMets).all (fun it => (resolveKey c it).isSome) = true := by
+  unfold Plan.fusableRaw at h
+  simp only [Bool.and_eq_true, beq_iff_eq, List.isEmpty_iff] at h
+  obtain ⟨⟨⟨⟨⟨h1, h2⟩, h3⟩, h4⟩, h5⟩, h6⟩ := h
+  exact ⟨h1, h2, h3, h4, h5, h6⟩
+
+/-- **Fusion, ungrouped.** A one-CTE plan without aggregation returns, on every database, exactly
+one row per source row that passes the CTE's WHERE, in source order, each output column being the
+CTE expression its SELECT item points at. -/
+theorem body_fuse_raw (p : Plan) (c : Cte) (db : DB) (h : p.fusableRaw c = true) :
+    p.body db = (p.fuseRaw c).eval (c.source.rows db) := by
+  obtain ⟨h1, h2, h3, h4, h5, h6⟩ := fusableRaw_parts h
+  have hj : p.joined db = c.eval db := by
+    unfold Plan.joined
+    simp [h1, h2, h3]
+  unfold Plan.body
+  simp only [hj, h4, h5, List.all_nil, filter_const_true, if_true]
+  unfold FlatRaw.eval Plan.fuseRaw
+  rw [cte_eval_eq]
+  simp only [List.map_map]
+  apply List.map_congr_left
+  intro r _
+  exact proj_item c (p.dims ++ p.rawMets) r h6
+
 end SideVerif.Sql
